@@ -364,18 +364,19 @@ fn run_once(case: &Case, fault: Fault, ctx: &Ctx, check_revoke: bool) -> RunInfo
                     let ctx = ctx.clone();
                     let info = info.clone();
                     let ep = sk.public();
+                    // index the access-control log will give to THIS attempt's connection
+                    let my_idx = access.ids.lock().unwrap().len() as u64;
                     tokio::task::spawn_local(async move {
                         match r {
                             Revoke::AfterAdmission { yields: y, by_endpoint } => {
                                 // wait until this attempt's on_connect returned Allow
                                 loop {
                                     let admitted = access.log.lock().unwrap().iter().rev().find_map(|e| match e {
-                                        AcEvent::ConnectEnd(i, true) if access.ids.lock().unwrap()[*i as usize].1 == ep => Some(*i),
+                                        AcEvent::ConnectEnd(i, true) if *i == my_idx && access.ids.lock().unwrap()[*i as usize].1 == ep => Some(*i),
                                         _ => None,
                                     });
-                                    // only the newest admission of this endpoint that has not disconnected yet
                                     if let Some(i) = admitted {
-                                        if i as usize + 1 == access.ids.lock().unwrap().len() {
+                                        {
                                             yields(y).await;
                                             let cid = access.ids.lock().unwrap()[i as usize].0;
                                             let found = service.clients().disconnect(ep, if by_endpoint { None } else { Some(cid) });
@@ -466,6 +467,46 @@ fn run_once(case: &Case, fault: Fault, ctx: &Ctx, check_revoke: bool) -> RunInfo
                     return;
                 }
                 ctx.count("probe.revoked_connection_ended");
+                // a revocation by endpoint id covers every connection of that endpoint (also ones
+                // displaced by a newer connection); connections of other endpoints stay served
+                let by_endpoint = matches!(&case.revoke, Some(Revoke::AfterAdmission { by_endpoint: true, .. }) | Some(Revoke::AfterRegistration { by_endpoint: true, .. }));
+                let revoked_key = case.attempts[last].key;
+                for ai in 0..last {
+                    let same = case.attempts[ai].key == revoked_key;
+                    let Some(ws) = clients[ai].as_mut() else { continue };
+                    // drain whatever the relay sent (health frames etc.); Ok(None) = stream ended
+                    let mut ended = false;
+                    loop {
+                        match tokio::time::timeout(Duration::from_millis(10), ws.next()).await {
+                            Ok(None) | Ok(Some(Err(_))) => {
+                                ended = true;
+                                break;
+                            }
+                            Ok(Some(Ok(_))) => continue,
+                            Err(_) => break,
+                        }
+                    }
+                    if same && by_endpoint && !ended {
+                        info.lock().unwrap().violation = Some((
+                            "revoked-endpoint-keeps-another-connection:by-endpoint-id".to_string(),
+                            format!("endpoint key{revoked_key} was revoked by endpoint id ({:?}); 2 s later its earlier connection (attempt {ai}) is still open", case.revoke),
+                        ));
+                        return;
+                    }
+                    if !same && ended {
+                        info.lock().unwrap().violation = Some((
+                            "revocation-ended-connection-of-another-endpoint".to_string(),
+                            format!("revoking key{revoked_key} ended the connection of key{} (attempt {ai})", case.attempts[ai].key),
+                        ));
+                        return;
+                    }
+                    if same && by_endpoint {
+                        ctx.count("probe.revoked_endpoint_other_connection_ended");
+                        clients[ai] = None;
+                    } else if !same {
+                        ctx.count("probe.other_endpoint_unaffected");
+                    }
+                }
             }
         }
         // end every remaining connection by its scripted cause
@@ -685,7 +726,7 @@ fn shrink(case: &Case) -> Vec<Case> {
 impl Typed for C08 {
     type Case = Case;
     fn gen_case(&self, rng: &mut Rng, _tier: Tier) -> Case {
-        let n = rng.range(1, 2);
+        let n = rng.range(1, 3);
         let mut attempts: Vec<Attempt> = (0..n).map(|_| gen_attempt(rng)).collect();
         let last = attempts.len() - 1;
         attempts[last].allow = true;
